@@ -52,6 +52,7 @@ def run(rec):
                 rec.case((op.__name__, chinfo.mod.tobytes(), k), isinstance(r, npc.Array) and len(r._data) >= 2,
                          sample={'op': c.name, 'steps_after': 'random'} if k == 0 and ci == 1 else None)
     leg_constructors(rec, rng)
+    factorizations(rec, rng)
 
 
 def leg_constructors(rec, rng):
@@ -103,3 +104,44 @@ def leg_constructors(rec, rng):
                     rec.violation(f'LegCharge.{name}:claims', b, {'mod': chinfo.mod.tolist(), 'slices': leg.slices.tolist(),
                                                                 'charges': leg.charges.tolist(), 'qconj': leg.qconj})
             rec.case(('legs', chinfo.mod.tobytes(), k), leg.block_number >= 2)
+
+
+def factorizations(rec, rng):
+    """every Array returned by the factorisations (all modes / options, requested total charges, both inner directions)
+    satisfies the invariant and makes only truthful claims - in particular the new inner legs"""
+    import itertools
+    import tenpy.linalg.np_conserved as npc
+    from .b_C05 import _matrix
+    quick = rec.tier == 'quick'
+    for ci, chinfo in enumerate(gen.chinfos()):
+        for k in range(4 if quick else 60):
+            dtype = [np.float64, np.complex128][k % 2]
+            a = _matrix(rng, chinfo, dtype, deficient=rng.random() < 0.3)
+            h = _matrix(rng, chinfo, dtype, square=True, hermitian=True)
+            inp = {'mod': chinfo.mod.tolist(), 'legs': [(l.qconj, l.slices.tolist(), l.charges.tolist()) for l in a.legs], 'qtotal': a.qtotal.tolist()}
+            calls = []
+            for mode, iq, lq, setq in itertools.product(['reduced', 'complete'], [+1, -1], [False, True], [False, True]):
+                qQ = chinfo.make_valid(rng.integers(-1, 2, size=chinfo.qnumber)) if setq else None
+                fn = npc.lq if lq else npc.qr
+                calls.append((f'{"lq" if lq else "qr"}(mode={mode},inner_qconj={iq},qtotal_Q={"set" if setq else None})',
+                              lambda fn=fn, mode=mode, iq=iq, qQ=qQ: fn(a, mode=mode, inner_qconj=iq, qtotal_Q=qQ)))
+            for iq, setq in itertools.product([+1, -1], [False, True]):
+                qLR = [chinfo.make_valid(rng.integers(-1, 2, size=chinfo.qnumber)), None] if setq else [None, None]
+                calls.append((f'svd(inner_qconj={iq},qtotal_LR={"set" if setq else None})',
+                              lambda iq=iq, qLR=qLR: [x for x in npc.svd(a, inner_qconj=iq, qtotal_LR=qLR) if isinstance(x, npc.Array)]))
+            calls.append(('eigh', lambda: [npc.eigh(h)[1]]))
+            calls.append(('eig', lambda: [npc.eig(h)[1]]))
+            calls.append(('expm', lambda: [npc.expm(h)]))
+            calls.append(('pinv', lambda: [npc.pinv(a)]))
+            for sig, call in calls:
+                rec.begin(f'C02 factorization {sig} chinfo={chinfo.mod} k={k}')
+                if not np.any(a.to_ndarray()) and sig.startswith(('svd', 'pinv')):
+                    continue       # documented RuntimeError for an all-zero matrix
+                ok, res = rec.guarded(f'{sig}:exception', call, inp)
+                rec.case(('fact', ci, k, sig), len(a._data) >= 2)
+                if not ok:
+                    continue
+                for j, t in enumerate(res):
+                    if isinstance(t, npc.Array):
+                        for msg in gen.sanity(t):
+                            rec.violation(f'{sig}:output{j}-invariant', msg, inp)
